@@ -49,7 +49,7 @@ class Gen:
         self.o = {"max_depth": 3, "max_sites": 22, "on_error": 0.3,
                   "switch": 0.12, "pipes": 0.3, "prefixes": 0.25,
                   "macros": 0.0, "pyforms": 0.0, "i18n": 0.0,
-                  "entities": 0.0}
+                  "entities": 0.0, "code": 0.0}
         self.o.update(opts or {})
         self.nsite = 0
         self.sites: dict[str, dict] = {}     # str(k) -> default value spec
@@ -113,13 +113,14 @@ class Gen:
             (1, {"v": "int", "i": 7}), (1, {"v": "none"}),
             (1, {"v": "html", "s": "<u>h</u>"})])
 
-    def probe(self, role: str) -> dict:
+    def probe(self, role: str, plain: bool = False) -> dict:
         k = self.nsite
         self.nsite += 1
         self.sites[str(k)] = self.value_for(role)
         self.roles[str(k)] = role
         p = {"k": "P", "id": k}
-        if self.o["pyforms"] and self.ch.coin(self.o["pyforms"]):
+        if not plain and self.o["pyforms"] and \
+                self.ch.coin(self.o["pyforms"]):
             # python sub-grammar around the probe: lambdas with star /
             # keyword-only parameters, a comprehension, and uses of render
             # arguments that carry the same names (a, kw, n)
@@ -373,6 +374,12 @@ class Gen:
                 if is_switch or ch.coin(0.6):
                     el["children"].append(self.element(
                         depth + 1, is_switch, name_in=is_tr))
+                elif o["code"] and ch.coin(o["code"]):
+                    # <?python P(k) ?> : a code block calling the probe
+                    # (plain call: code blocks are ordinary Python, the
+                    # attribute -> item fallback does not apply there)
+                    el["children"].append({"t": "code",
+                                           "e": self.probe("define", True)})
                 else:
                     el["children"].append(self.text())
         elif not is_switch:
@@ -533,6 +540,20 @@ class Ser:
     def node(self, n: dict) -> None:
         if n["t"] == "text":
             self.parts(n["parts"])
+            return
+        if n["t"] == "code":
+            self.w("<?python")
+            start = self.pos
+            idx = len(self.occ)
+            self.occ.append({"start": start, "kind": "code", "e": "code",
+                             "parent": None, "value_start": None})
+            self.stack.append(idx)
+            self.w(" ")
+            self.expr(n["e"], "arg")
+            self.w(" ")
+            self.stack.pop()
+            self.occ[idx]["end"] = self.pos
+            self.w("?>")
             return
         tag = ("tal:" if n["talns"] else "") + n["tag"]
         self.w("<" + tag)
